@@ -273,12 +273,18 @@ class Interp:
             fr = Frame(fi, env, defcls=fv.defcls or fi.cls, self_obj=fv.self_obj)
             fr.env["__via__"] = fv.via
             self.stack.append(fr)
+            is_gen = _has_yield(fi.node)
+            if is_gen:
+                fr.env["__yield__"] = []
             try:
                 self.exec_block(fi.node.body, fr)
             except Return as r:
-                return r.v
+                if not is_gen:
+                    return r.v
             finally:
                 self.stack.pop()
+            if is_gen:
+                return GenV(list(fr.env["__yield__"]))
             return None
         finally:
             self.depth -= 1
@@ -1330,14 +1336,20 @@ class Interp:
             env.update(self.bind_args(fv, args, kwargs, node))
             fr = Frame(c.frame.fi, env, defcls=c.frame.defcls, self_obj=c.frame.self_obj)
             self.stack.append(fr)
+            is_gen = not isinstance(c.fi.node, ast.Lambda) and _has_yield(c.fi.node)
+            if is_gen:
+                fr.env["__yield__"] = []
             try:
                 if isinstance(c.fi.node, ast.Lambda):
                     return self.eval(c.fi.node.body, fr)
                 self.exec_block(c.fi.node.body, fr)
             except Return as r:
-                return r.v
+                if not is_gen:
+                    return r.v
             finally:
                 self.stack.pop()
+            if is_gen:
+                return GenV(list(fr.env["__yield__"]))
             return None
         finally:
             self.depth -= 1
@@ -1346,6 +1358,18 @@ class Interp:
         from .front import FunctionInfo
         fi = FunctionInfo(fr.fi.module if fr.fi else "", "<lambda>", n, cls=None)
         return Closure(fi, fr)
+
+    def e_Yield(self, n, fr):
+        if "__yield__" not in fr.env:
+            raise self.err(n, "yield outside a generator function")
+        fr.env["__yield__"].append(self.eval(n.value, fr) if n.value is not None else None)
+        return None
+
+    def e_YieldFrom(self, n, fr):
+        if "__yield__" not in fr.env:
+            raise self.err(n, "yield outside a generator function")
+        fr.env["__yield__"].extend(self.iterate(self.eval(n.value, fr), n, fr))
+        return None
 
     def e_NamedExpr(self, n, fr):
         v = self.eval(n.value, fr)
@@ -1404,6 +1428,10 @@ class Interp:
                                f"a single member is picked from the {v.domain} collection, which has "
                                "several members: the result depends on insertion order", data=v.domain)
                     return IterV(list(v.members))
+                if isinstance(v.card, int) and v.card > 1:
+                    self.event("order-pick", n,
+                               f"a single member is picked from the {v.domain} collection, which has "
+                               f"{v.card} members: the result depends on insertion order", data=v.domain)
                 return IterV(list(v.members))
             return IterV(self.iterate(v, n, fr))
         if name == "next":
@@ -1631,6 +1659,12 @@ class Interp:
         out = TV(("vcat", tuple(terms)), 1)
         self.check_shape(out, n)
         return out
+
+
+def _has_yield(fn) -> bool:
+    from .front import walk_no_nested
+
+    return any(isinstance(x, (ast.Yield, ast.YieldFrom)) for x in walk_no_nested(fn))
 
 
 class IndexSet:
